@@ -18,6 +18,8 @@ UNIT = Unit(
     items=[
         Raw(K.INSTANT_NOW),
         Decl("src/state.rs", "struct", "AtomicPosition"),
+        Decl("src/state.rs", "const", "INTERVAL"),
+        Decl("src/state.rs", "const", "MAX_BURST"),
         Decl("src/state.rs", "enum", "Status"),
         Decl("src/state.rs", "enum", "Reset"),
         Decl("src/state.rs", "enum", "ProgressFinish", rewrites=[Rw("R15", r"Cow<'static, str>", "String", count=2)]),
